@@ -89,15 +89,13 @@ theorem step2_collide (cfg : Cfg) (db : Db) (auto : Dict Nat) (f : Feature) (k :
     (hex : db.getRow? k = some ex) (hsrc : ex.source ≠ f.source)
     (hfm : "source".toList ∉ cfg.forceMergeFields)
     (hdups : ∀ on ∈ db.duplicates, on.1 = k → db.getRow? on.2 = none)
-    (hnid : ∀ r ∈ db.features, r.id ≠ (incr auto k).1) :
+    (_hnid : ∀ r ∈ db.features, r.id ≠ (incr auto k).1) :
     step2 cfg (db, auto) f =
       .ok ({ db with duplicates := db.duplicates ++ [(k, (incr auto k).1)] }, (incr auto k).2) := by
   have hins : db.insert (lineRow f k) = .error .integrity :=
     GffProofs.C04.insert_dup_rejected db (lineRow f k) (hasId_of_getRow hex)
   have hm := doMerge_collide cfg db auto { f with id := some k } k ex hex hsrc hfm hdups
-  simp only [step2, hid, ofFeature_lineRow, hins, hm, bind, Except.bind, pure, Except.pure, Option.getD_some]
-  rw [modifyRow_absent]
-  exact hnid
+  simp only [step2, hid, ofFeature_lineRow, hins, hm, bind, Except.bind, pure, Except.pure]
 
 /-! ### the whole second pass -/
 
